@@ -13,7 +13,7 @@ theorem ptop_eq {P P' : Pub} (h : ptop P' = ptop P) :
 
 theorem stop_eq {S S' : Sub} (h : stop S' = stop S) :
     S'.alive = S.alive ∧ S'.ex = S.ex ∧ S'.slot = S.slot ∧ S'.conns = S.conns ∧ S'.snap = S.snap ∧
-      S'.storage = S.storage := by
+      S'.storage = S.storage ∧ S'.tbr = S.tbr := by
   simpa [stop] using h
 
 theorem ctop_eq {c c' : Conn} (h : ctop c' = ctop c) :
@@ -68,7 +68,7 @@ theorem preg {p : Nat} {P P' : Pub} (e : ptop P' = ptop P) (hr : PReg w p P) : P
   rw [e1, e3, h.pubReg]; exact hr
 
 theorem sreg {s : Nat} {S S' : Sub} (e : stop S' = stop S) (hr : SReg w s S) : SReg w' s S' := by
-  obtain ⟨e1, _, e3, _, _, _⟩ := stop_eq e
+  obtain ⟨e1, _, e3, _, _, _, _⟩ := stop_eq e
   unfold SReg at *
   rw [e1, e3, h.subReg]; exact hr
 
@@ -79,7 +79,7 @@ theorem top_congr {G : GT} {w w' : World} (hi : TopInv G w) (h : TopEq w w') : T
   · -- registry
     have r := hi.reg
     refine ⟨by rw [h.pubReg, h.cfg]; exact r.lenP, by rw [h.subReg, h.cfg]; exact r.lenS,
-      ?_, ?_, ?_, ?_, ?_, ?_, h.nodup⟩
+      ?_, ?_, ?_, ?_, ?_, ?_, ?_, ?_, h.nodup⟩
     · intro i p hp
       rw [h.pubReg] at hp
       obtain ⟨P, hP, ha, hs⟩ := r.r1 i p hp
@@ -90,7 +90,7 @@ theorem top_congr {G : GT} {w w' : World} (hi : TopInv G w) (h : TopEq w w') : T
       rw [h.subReg] at he
       obtain ⟨S, hS, ha, hs⟩ := r.r2 i e he
       obtain ⟨S', hS', e'⟩ := h.sub_fwd hS
-      obtain ⟨e1, _, e3, _, _, _⟩ := stop_eq e'
+      obtain ⟨e1, _, e3, _, _, _, _⟩ := stop_eq e'
       exact ⟨S', hS', by rw [e1]; exact ha, by rw [e3]; exact hs⟩
     · intro p P' hP' hnp
       obtain ⟨P, hP, e⟩ := h.pub_bwd hP'
@@ -100,6 +100,14 @@ theorem top_congr {G : GT} {w w' : World} (hi : TopInv G w) (h : TopEq w w') : T
       exact h.sreg e (r.r3s s S hS hns)
     · intro p hp i; rw [h.pubReg]; exact r.npFresh p hp i
     · intro s hs i e; rw [h.subReg]; exact r.nsFresh s hs i e
+    · intro p hp
+      obtain ⟨P, hP, ha⟩ := r.npAlive p hp
+      obtain ⟨P', hP', e⟩ := h.pub_fwd hP
+      exact ⟨P', hP', by rw [(ptop_eq e).1]; exact ha⟩
+    · intro s hs
+      obtain ⟨S, hS, ha⟩ := r.nsAlive s hs
+      obtain ⟨S', hS', e⟩ := h.sub_fwd hS
+      exact ⟨S', hS', by rw [(stop_eq e).1]; exact ha⟩
   · -- publishers
     intro p P' hP'
     obtain ⟨P, hP, e⟩ := h.pub_bwd hP'
@@ -111,7 +119,7 @@ theorem top_congr {G : GT} {w w' : World} (hi : TopInv G w) (h : TopEq w w') : T
       rw [e4] at hc
       obtain ⟨S, hS, hsl, hr, hns, hal, cn, hcn, hsa⟩ := t.conn i s hc
       obtain ⟨S', hS', e'⟩ := h.sub_fwd hS
-      obtain ⟨f1, _, f3, _, _, _⟩ := stop_eq e'
+      obtain ⟨f1, _, f3, _, _, _, _⟩ := stop_eq e'
       obtain ⟨cn', hcn', ec⟩ := h.conn_fwd hcn
       obtain ⟨_, _, g3, _⟩ := ctop_eq ec
       refine ⟨S', hS', by rw [f3]; exact hsl, h.sreg e' hr, hns, ?_, cn', hcn', by rw [g3]; exact hsa⟩
@@ -120,16 +128,17 @@ theorem top_congr {G : GT} {w w' : World} (hi : TopInv G w) (h : TopEq w w') : T
       rw [e5] at hc
       obtain ⟨S, hS, hsl, hr, hns⟩ := t.snap i en hc
       obtain ⟨S', hS', e'⟩ := h.sub_fwd hS
-      obtain ⟨_, _, f3, _, _, _⟩ := stop_eq e'
+      obtain ⟨_, _, f3, _, _, _, _⟩ := stop_eq e'
       exact ⟨S', hS', by rw [f3]; exact hsl, h.sreg e' hr, hns⟩
   · -- subscribers
     intro s S' hS'
     obtain ⟨S, hS, e⟩ := h.sub_bwd hS'
-    obtain ⟨e1, e2, e3, e4, e5, e6⟩ := stop_eq e
+    obtain ⟨e1, e2, e3, e4, e5, e6, e7⟩ := stop_eq e
     have t := hi.subs s S hS
     refine ⟨by rw [e4, h.cfg]; exact t.lenC, by rw [e5, h.cfg]; exact t.lenSnap,
       by rw [e1, e2]; exact t.aliveEx, by rw [e2, e6]; exact t.dead, by rw [e6]; exact t.winv,
-      ?_, by rw [e6]; exact t.inj, ?_, ?_⟩
+      ?_, by rw [e6]; exact t.inj, ?_, ?_, by rw [e7]; exact t.tbrNodup,
+      by rw [e7, e6, e4]; exact t.tbr⟩
     · intro k p hk
       rw [e6] at hk
       obtain ⟨⟨cn, hcn, hra⟩, P, hP, hr, hnp, hor⟩ := t.stor k p hk
@@ -160,7 +169,7 @@ theorem top_congr {G : GT} {w w' : World} (hi : TopInv G w) (h : TopEq w w') : T
     obtain ⟨P', hP', e'⟩ := h.pub_fwd hP
     obtain ⟨_, _, _, f4, _⟩ := ptop_eq e'
     obtain ⟨S', hS', e''⟩ := h.sub_fwd hS
-    obtain ⟨_, _, _, _, _, k6⟩ := stop_eq e''
+    obtain ⟨_, _, _, _, _, k6, _⟩ := stop_eq e''
     refine ⟨P', S', hP', hS', ?_, ?_, ?_⟩
     · rw [g3, g4]; exact t.att
     · rw [g3, g2, f4]; exact t.sAtt
